@@ -16,6 +16,7 @@ BASE = {
                    ("alen", b"\x0b"), ("addr", b"example.com"), ("port", b"\x01\xbb")],
     "socks4_req": [("ver", b"\x04"), ("cmd", b"\x01"), ("port", b"\x00\x50"), ("ip", b"\x00\x00\x00\x01"), ("userid", b"user"), ("nul1", b"\x00"),
                    ("domain", b"example.org"), ("nul2", b"\x00")],
+    "socks5_method": [("ver", b"\x05"), ("method", b"\x00")],
     "socks5_resp": [("ver", b"\x05"), ("rep", b"\x00"), ("rsv", b"\x00"), ("atyp", b"\x03"), ("alen", b"\x05"), ("addr", b"a.b.c"), ("port", b"\x00\x35")],
     "socks4_resp": [("vn", b"\x00"), ("cd", b"\x5a"), ("port", b"\x00\x50"), ("ip", b"\x01\x02\x03\x04")],
     "socks_udp": [("rsv", b"\x00\x00"), ("frag", b"\x00"), ("atyp", b"\x03"), ("alen", b"\x0b"), ("addr", b"example.com"), ("port", b"\x00\x35"),
@@ -95,6 +96,8 @@ def decode_ops(dec, data, cid):
         return [{"op": "decode", "codec": "socks_req", "hex": h}, {"op": "decode", "codec": "socks_req_auth", "hex": h}]
     if dec in ("socks5_resp", "socks4_resp"):
         return [{"op": "decode", "codec": "socks_resp", "hex": h}]
+    if dec == "socks5_method":
+        return []       # exercised against the real connector (hostile upstream phase): the selection drives client-side code
     if dec == "socks_udp":
         return [{"op": "decode", "codec": "socks_udp", "hex": h}]
     if dec == "rpfm":
@@ -271,6 +274,8 @@ class FakeUpstream:
     def __init__(self, http_replies, socks_replies):
         self.http_replies = http_replies
         self.socks_replies = socks_replies
+        self.method_replies = [b"\x05\x00", b"\x05\x00", b"\x05\x02", b"\x05\x00", b"\x05\x01", b"\x05\xff", b"\x05\x80", b"\x04\x00", b"\x00\x00", b"\x05", b"",
+                               b"\x05\x02\x01\x00", b"\x05\x02\x01\x01"]
         self.hs = socket.socket(); self.hs.bind(("127.0.0.1", 0)); self.hs.listen(64); self.http_port = self.hs.getsockname()[1]
         self.ss = socket.socket(); self.ss.bind(("127.0.0.1", 0)); self.ss.listen(64); self.socks_port = self.ss.getsockname()[1]
         self.stop = False
@@ -298,7 +303,10 @@ class FakeUpstream:
                     data = self.http_replies[self.i % max(len(self.http_replies), 1)] if self.http_replies else b""
                     self.i += 1
                 else:
-                    data = b"\x05\x00" + (self.socks_replies[self.j % max(len(self.socks_replies), 1)] if self.socks_replies else b"")
+                    # the answer to the method offer varies too (a method the connector did not offer, one it offered but has no
+                    # credentials for, a wrong version, nothing at all), then the (hostile) reply to the request
+                    m = self.method_replies[self.j % len(self.method_replies)]
+                    data = m + (self.socks_replies[self.j % max(len(self.socks_replies), 1)] if self.socks_replies else b"")
                     self.j += 1
                 s.sendall(data)
                 time.sleep(0.02)
